@@ -72,6 +72,15 @@ CHECKS = {
              "longer ones with integer scores.",
         note="Spans have end > start; counts are kept inside the dtype range (else int64); only symmetric=True is compared for the "
              "spacing function because its non-symmetric orientation is not stated."),
+    "C11": dict(
+        technique="property-based testing (Hypothesis) against an exact integer-count reference (int64 convolution, brute-force cross-check for w<=7)",
+        category="exploration", design_ref="DESIGN.md §3 C11",
+        text="_pwm_to_mapping is called with log-odds built exactly as fimo() builds them for generated PWMs (width 1-30; Dirichlet-like, "
+             "coarse-grid, zero-containing, uniform and one-hot columns), bin sizes 0.01-1 and pseudocounts 1e-6-0.1; every table entry "
+             "must equal log2 of the exact number of sequences with discretised score >= that bin over 4^w within 1e-9, be exactly -inf "
+             "above the highest attainable score, 0 at/below the lowest, monotone, never NaN or > 0.",
+        note="Exercises the one numba/LLVM build in this sandbox. Observes the module-level function _pwm_to_mapping named in the "
+             "property's observation points (its absence is a HARNESS-ERROR); the p-value column of fimo() is checked in C12."),
     "C15": dict(
         technique="property-based testing (Hypothesis) with a string round-trip / direct-slicing oracle + exhaustive small-scope enumeration",
         category="exploration", design_ref="DESIGN.md §3 C15",
